@@ -1,9 +1,11 @@
 package main
 
 import (
+	"fmt"
 	"go/constant"
 	"go/token"
 	"go/types"
+	"sort"
 	"strings"
 
 	"golang.org/x/tools/go/ssa"
@@ -1802,4 +1804,110 @@ func rulePNILLOOKUP(p *Program, r *Reporter) {
 		})
 	}
 	r.Count(id, 1)
+}
+
+// ---------------------------------------------------------------------------
+// L-ORDER — no two lock classes are taken in both orders: if somewhere B is
+// acquired while A may be held (by the function or any caller) and somewhere
+// else A is acquired while B may be held, two goroutines can block each other.
+// Two shared acquisitions of the same pair do not count.
+
+type lockEdge struct {
+	from, to lockKey
+	fn       *ssa.Function
+	pos      token.Pos
+	how      string
+}
+
+func lockOrderEdges(p *Program, pkgs map[string]bool) []lockEdge {
+	la := getLockAnalysis(p)
+	var out []lockEdge
+	for _, fn := range p.srcFuncs {
+		if !pkgs[pkgOf(fn)] {
+			continue
+		}
+		for _, b := range fn.Blocks {
+			for _, ins := range b.Instrs {
+				c, ok := ins.(*ssa.Call)
+				if !ok {
+					continue
+				}
+				op, isLock, cls := lockOpOf(c.Common())
+				if !isLock || !cls || !op.acquire {
+					continue
+				}
+				for _, h := range la.heldWithCallers(fn, c, map[*ssa.Function]bool{}, 0) {
+					if h.k.field == op.key.field {
+						continue
+					}
+					// a lock whose release is deferred inside a loop of this function stays held
+					// into the next turn: there it belongs to another object of the same class
+					// (the locks of each database in turn), which a class-level order cannot judge
+					if deferredUnlockInLoop(fn, h.k.field) {
+						continue
+					}
+					out = append(out, lockEdge{h.k, op.key, fn, c.Pos(), h.how})
+				}
+			}
+		}
+	}
+	return out
+}
+
+func ruleLORDER(p *Program, r *Reporter) {
+	const id = "L-ORDER"
+	pkgs := map[string]bool{"client": true, "cache": true, "server": true, "database/inmemory": true}
+	edges := lockOrderEdges(p, pkgs)
+	type pair struct{ a, b *types.Var }
+	fwd := map[pair][]lockEdge{}
+	for _, e := range edges {
+		fwd[pair{e.from.field, e.to.field}] = append(fwd[pair{e.from.field, e.to.field}], e)
+	}
+	var keys []pair
+	for k := range fwd {
+		keys = append(keys, k)
+	}
+	sort.Slice(keys, func(i, j int) bool {
+		if lockClassName(keys[i].a) != lockClassName(keys[j].a) {
+			return lockClassName(keys[i].a) < lockClassName(keys[j].a)
+		}
+		return lockClassName(keys[i].b) < lockClassName(keys[j].b)
+	})
+	for _, k := range keys {
+		rev := fwd[pair{k.b, k.a}]
+		e := fwd[k][0]
+		bad := ""
+		for _, f := range fwd[k] {
+			for _, g := range rev {
+				// a cycle needs an exclusive acquisition on each side: A held (any mode) then
+				// B wanted, while B held then A wanted - harmless only if all four are shared
+				if f.from.mode == 'R' && f.to.mode == 'R' && g.from.mode == 'R' && g.to.mode == 'R' {
+					continue
+				}
+				bad = fmt.Sprintf("%s is acquired while %s may be held (%s at %s), and %s while %s may be held (%s at %s)", f.to, f.from, funcName(f.fn), p.Pos(f.pos), g.to, g.from, funcName(g.fn), p.Pos(g.pos))
+				e = f
+			}
+		}
+		r.Ob(id, funcName(e.fn), "order "+lockClassName(k.a)+" -> "+lockClassName(k.b), e.pos, bad == "", true,
+			ifs(bad == "", "these two locks are only ever taken in this order", "lock order cycle: "+bad+": two goroutines can block each other for ever"))
+	}
+	r.Count(id, 1)
+}
+
+func deferredUnlockInLoop(fn *ssa.Function, lock *types.Var) bool {
+	for _, b := range fn.Blocks {
+		if loopHeaderOf(b) == nil {
+			continue
+		}
+		for _, ins := range b.Instrs {
+			d, ok := ins.(*ssa.Defer)
+			if !ok {
+				continue
+			}
+			if op, isLock, cls := lockOpOf(d.Common()); isLock && cls && !op.acquire && op.key.field == lock {
+				return true
+			}
+		}
+	}
+	return false
 }
